@@ -16,7 +16,7 @@ use serde_json::json;
 
 pub struct C17;
 
-fn judge(kind: &str, idx: u64, p: &Program, defines: &[&str], tag: &str) -> CaseResult {
+pub fn judge(kind: &str, idx: u64, p: &Program, defines: &[&str], tag: &str) -> CaseResult {
     let src = print_program(p);
     let mut res = CaseResult::new("", crate::util::hash_str(&src) ^ crate::util::hash_str(kind));
     let nsplit = p.vars.iter().filter(|v| v.mem != MemClass::Zp).count();
@@ -165,5 +165,14 @@ impl Monitor for C17 {
             ("set:schemes".into(), 3),
             ("set:constructs in programs with cartridge-RAM variables".into(), 60),
         ]
+    }
+}
+
+/// development: the (program, defines, tag) of a case, for the reducer
+pub fn case_program(kind: &str, idx: u64) -> (Program, Vec<&'static str>, &'static str) {
+    match kind {
+        "superchip" => (gen_program("split", idx, &cfg_split(false)), vec![], "C17s"),
+        "ram3e" => (gen_program("split3e", idx, &cfg_split(true)), vec!["__3E__"], "C17e"),
+        _ => (gen_program("split3ep", idx, &cfg_split(true)), vec!["__3E_PLUS__"], "C17p"),
     }
 }
